@@ -144,7 +144,7 @@ static int
 executable(int c, int h)
 {
         /* pairs the item model can compute */
-        if (c == IMB_CIPHER_PON_AES_CNTR || h == IMB_AUTH_PON_CRC_BIP)
+        if ((c == IMB_CIPHER_PON_AES_CNTR) != (h == IMB_AUTH_PON_CRC_BIP))
                 return 0;
         if (c == IMB_CIPHER_GCM_SGL || c == IMB_CIPHER_CHACHA20_POLY1305_SGL)
                 return 0; /* executed by the sgl engine (C10) */
@@ -241,6 +241,8 @@ eng_suite(void)
                                                         if (g_opt.verbose)
                                                                 fprintf(stderr, "cell c%d k%u d%d h%d o%d model %d\n", c, k, d, h, o, model);
                                                         item_gen(IT, pcs, phs, &r, &g, mmj);
+                                                        if (c == IMB_CIPHER_PON_AES_CNTR && h == IMB_AUTH_PON_CRC_BIP && IT->c_len == 0)
+                                                                model = ACC; /* no ciphering requested: key size and direction are not looked at */
                                                         if (!dedicated)
                                                                 IT->order = (IMB_CHAIN_ORDER) o;
                                                         else if (c == IMB_CIPHER_CCM || c == IMB_CIPHER_DOCSIS_SEC_BPI)
